@@ -1422,6 +1422,23 @@ func (t *glTr) stmt(fn *glFn, s ast.Stmt) string {
 					}
 					return t.withPre(c, st)
 				}
+				// x.f[i] = e on an int-sequence field: through a temporary (tmp := x.f; tmp[i] = e; x.f = tmp)
+				if ix, ok := x.Lhs[0].(*ast.IndexExpr); ok && x.Tok == token.ASSIGN {
+					if fsel, ok := ix.X.(*ast.SelectorExpr); ok && isIntSeq(t.p.info.TypeOf(ix.X)) {
+						if sel, ok := t.p.info.Selections[fsel]; ok && sel.Kind() == types.FieldVal && len(sel.Index()) == 1 {
+							if id, ok := fsel.X.(*ast.Ident); ok {
+								rhs := t.expr(c, x.Rhs[0])
+								idx := t.expr(c, ix.Index)
+								tn := t.tmp(c)
+								return t.withPre(c, glSeq([]string{
+									fmt.Sprintf("SAssign (LVar %s) (EField (EVar %s) %s)", glStr(tn), glStr(t.idName(fn, id)), glStr(fsel.Sel.Name)),
+									fmt.Sprintf("SAssign (LIndex %s (%s)) (%s)", glStr(tn), idx, rhs),
+									fmt.Sprintf("SAssign (LField %s %s) (EVar %s)", glStr(t.idName(fn, id)), glStr(fsel.Sel.Name), glStr(tn)),
+								}))
+							}
+						}
+					}
+				}
 				return t.withPre(c, fmt.Sprintf("SAssign (%s) (%s)", t.lvalOf(c, x.Lhs[0]), t.expr(c, x.Rhs[0])))
 			}
 			// parallel assignment a, b = e1, e2: evaluate all right-hand sides first
